@@ -480,6 +480,69 @@ fn iana_tags(rep: &mut Report) {
     rep.enumerated(table.len() as u64);
 }
 
+/// A sink that keeps the first bytes and counts the rest.
+struct HeadSink {
+    head: Vec<u8>,
+    total: u64,
+}
+
+impl minicbor::encode::Write for HeadSink {
+    type Error = std::convert::Infallible;
+    fn write_all(&mut self, b: &[u8]) -> Result<(), Self::Error> {
+        let room = 12usize.saturating_sub(self.head.len());
+        self.head.extend_from_slice(&b[..b.len().min(room)]);
+        self.total += b.len() as u64;
+        Ok(())
+    }
+}
+
+/// Byte and text strings whose length needs the 8-byte head (>= 2^32): the payload is a read-only
+/// anonymous zero mapping (virtual memory only), the sink keeps the head and counts the bytes.
+fn huge_strings(rep: &mut Report) {
+    for n in [(1u64 << 32) - 1, 1 << 32, (1 << 32) + 1, (1 << 32) + 70_000] {
+        let region = match mon::ZeroRegion::new(n as usize) {
+            Some(r) => r,
+            None => {
+                rep.note(format!("could not map a {} byte zero region; huge-string heads not exercised", n));
+                return;
+            }
+        };
+        let data = region.as_slice();
+        for text in [false, true] {
+            rep.eval();
+            let mut want = Vec::new();
+            refcbor::head(if text { 3 } else { 2 }, refcbor::min_width(n), n, &mut want);
+            let hl = want.len();
+            want.extend(std::iter::repeat(0u8).take(12 - hl));
+            let r = mon::guarded(|| {
+                let mut e = Encoder::new(HeadSink { head: Vec::new(), total: 0 });
+                if text {
+                    // all-zero bytes are valid UTF-8 (NUL characters)
+                    let s = unsafe { std::str::from_utf8_unchecked(data) };
+                    e.str(s).map_err(|e| e.to_string())?;
+                } else {
+                    e.bytes(data).map_err(|e| e.to_string())?;
+                }
+                let w = e.into_writer();
+                Ok::<_, String>((w.head, w.total))
+            });
+            let what = if text { "Encoder::str(huge)" } else { "Encoder::bytes(huge)" };
+            match r {
+                Ok(Ok((head, total))) => {
+                    if head != want || total != hl as u64 + n {
+                        fail(rep, what, format!("a {} byte string was written as {}.. ({} bytes in total); expected {}.. ({} bytes)", n, hex(&head), total, hex(&want), hl as u64 + n), &[], vec![]);
+                    } else {
+                        rep.count("strings of 2^32-1 .. 2^32+70000 bytes: head and total length");
+                    }
+                }
+                Ok(Err(e)) => fail(rep, what, format!("{} byte string: {}", n, e), &[], vec![]),
+                Err(p) => fail(rep, what, format!("{} byte string: panic {}", n, p.message), &[], vec![]),
+            }
+        }
+        rep.enumerated(2);
+    }
+}
+
 fn iter_case(rep: &mut Report, seed: u64, i: u64) {
     rep.eval();
     let mut rng = Rng::derive("c03/iter", seed, 0, i);
@@ -612,6 +675,9 @@ pub fn run(a: &Args, rep: &mut Report) {
     for_each_subject!(m);
     if a.shard == 0 {
         iana_tags(rep);
+    }
+    if a.shard == 1 % a.nshards {
+        huge_strings(rep);
     }
     // C. balanced call sequences and iterator adapters
     let nseq: u64 = if a.thorough() { 20_000_000 } else { 1_500_000 };
